@@ -723,6 +723,8 @@ void mmd_export_token_latex(DString * out, const char * source, token * t, scrat
 					break;
 
 				case 7:
+				default:
+					// LaTeX has nothing below \subparagraph
 					print_const("\\subparagraph{");
 					break;
 			}
